@@ -292,6 +292,10 @@ func unmarshalGeoJSONAsType(p []byte, dst interface{}) error {
 // AppendWKT appends the WKT (Well Known Text) representation of this geometry
 // to the input byte slice.
 func (g Geometry) AppendWKT(dst []byte) []byte {
+	if g.gtype == TypeGeometryCollection && g.ptr == nil {
+		// The zero value Geometry is the empty GeometryCollection.
+		return GeometryCollection{}.AppendWKT(dst)
+	}
 	switch g.gtype {
 	case TypeGeometryCollection:
 		return (*GeometryCollection)(g.ptr).AppendWKT(dst)
